@@ -274,7 +274,7 @@ class ModelFile:
             for elm in source.iter():
                 xtype = helpers.xtype_of(elm)
                 if xtype:
-                    del self.__xtypecache[xtype][id(elm)]
+                    self.__xtypecache[xtype].pop(id(elm), None)
                 for idtype in IDTYPES_RESOLVED:
                     elm_id = elm.get(idtype, None)
                     if elm_id is None:
@@ -284,7 +284,7 @@ class ModelFile:
                         del self.__idcache[elm_id]
                 href = elm.get("href")
                 if href is not None:
-                    del self.__hrefsources[href.split("#")[-1]]
+                    self.__hrefsources.pop(href.split("#")[-1], None)
 
     def idcache_rebuild(self) -> None:
         """Invalidate and rebuild this file's ID cache."""
